@@ -4,7 +4,7 @@
 set -e
 export GOFLAGS=-mod=mod GOPROXY=off GOSUMDB=off GOTOOLCHAIN=local
 mkdir -p ${VERIF_ROOT:-/verif}/build
-cd ${VERIF_ROOT:-/verif}/harness && cp /repo/go.sum go.sum && go build -tags verif -o ${VERIF_ROOT:-/verif}/build/vh .
+cd ${VERIF_ROOT:-/verif}/harness && cp ${VERIF_REPO:-/repo}/go.sum go.sum && go mod edit -replace github.com/tormoder/fit=${VERIF_REPO:-/repo} && go build -tags verif -o ${VERIF_ROOT:-/verif}/build/vh .
 ${VERIF_ROOT:-/verif}/build/vh gen
 ${VERIF_ROOT:-/verif}/tools/mkcoqproject.sh
 cd ${VERIF_ROOT:-/verif}/coq && timeout 3000 make -k -j16 > ${VERIF_ROOT:-/verif}/build/coq-build.log 2>&1 || { tail -40 ${VERIF_ROOT:-/verif}/build/coq-build.log; echo "coq build incomplete"; }
